@@ -154,7 +154,110 @@ class Rename(ast.NodeTransformer):
     visit_AsyncFunctionDef = visit_FunctionDef
 
 
-TRANSFORMS = {"eqswap": EqSwap, "cmpflip": CmpFlip, "ifinvert": IfInvert, "notcmp": NotCmp, "augexpand": AugExpand,
+class Annotate(ast.NodeTransformer):
+    """Type hints: every parameter except self/cls gets an annotation, every function a return annotation, and a
+    simple `name = <constant / display>` at function level becomes `name: T = ...` (PEP 526)."""
+
+    def visit_FunctionDef(self, node):
+        self.generic_visit(node)
+        for a in node.args.posonlyargs + node.args.args + node.args.kwonlyargs:
+            if a.arg not in ("self", "cls") and a.annotation is None:
+                a.annotation = ast.Name(id="object", ctx=ast.Load())
+        if node.returns is None:
+            node.returns = ast.Name(id="object", ctx=ast.Load())
+        return node
+
+    def visit_Assign(self, node):
+        self.generic_visit(node)
+        if len(node.targets) == 1 and isinstance(node.targets[0], ast.Name) and isinstance(
+                node.value, (ast.Constant, ast.List, ast.Dict)) and not isinstance(getattr(node.value, "value", None), type(None)):
+            t = {ast.List: "list", ast.Dict: "dict"}.get(type(node.value)) or type(node.value.value).__name__
+            return ast.copy_location(ast.AnnAssign(target=node.targets[0], annotation=ast.Name(id=t, ctx=ast.Load()),
+                                                   value=node.value, simple=1), node)
+        return node
+
+
+class FString(ast.NodeTransformer):
+    """pyupgrade-style: "a {} b {:>4}".format(x, y) -> f"a {x} b {y:>4}" (auto-numbered fields, positional arguments that
+    are names / attributes / subscripts / calls without string literals inside; everything else is left alone)."""
+
+    def visit_Call(self, node):
+        self.generic_visit(node)
+        f = node.func
+        if not (isinstance(f, ast.Attribute) and f.attr == "format" and isinstance(f.value, ast.Constant) and isinstance(f.value.value, str)
+                and not node.keywords and node.args and not any(isinstance(a, ast.Starred) for a in node.args)):
+            return node
+        import re as _re
+        tmpl = f.value.value
+        if "{{" in tmpl or "}}" in tmpl or "\\" in tmpl:
+            return node
+        fields = _re.findall(r"\{([^{}]*)\}", tmpl)
+        if len(fields) != len(node.args) or any(not (x == "" or x.startswith(":")) or "{" in x for x in fields):
+            return node
+        if any(isinstance(c, ast.Constant) and isinstance(c.value, str) for a in node.args for c in ast.walk(a)):
+            return node
+        if any(isinstance(c, (ast.Lambda, ast.Dict, ast.Set, ast.DictComp, ast.SetComp, ast.JoinedStr, ast.Await, ast.Yield)) for a in node.args for c in ast.walk(a)):
+            return node
+        parts, pos, i = [], 0, 0
+        for m in _re.finditer(r"\{([^{}]*)\}", tmpl):
+            if m.start() > pos:
+                parts.append(ast.Constant(value=tmpl[pos:m.start()]))
+            spec = m.group(1)[1:] if m.group(1).startswith(":") else None
+            parts.append(ast.FormattedValue(value=node.args[i], conversion=-1,
+                                            format_spec=ast.JoinedStr(values=[ast.Constant(value=spec)]) if spec else None))
+            i += 1
+            pos = m.end()
+        if pos < len(tmpl):
+            parts.append(ast.Constant(value=tmpl[pos:]))
+        return ast.copy_location(ast.JoinedStr(values=parts), node)
+
+
+class MethodOrder(ast.NodeTransformer):
+    """The methods of every class in reverse order of definition (class-level assignments and the docstring stay first;
+    decorated properties keep getter before setter by being moved as a group)."""
+
+    def visit_ClassDef(self, node):
+        self.generic_visit(node)
+        head = [s for s in node.body if not isinstance(s, (ast.FunctionDef, ast.AsyncFunctionDef))]
+        funcs = [s for s in node.body if isinstance(s, (ast.FunctionDef, ast.AsyncFunctionDef))]
+        groups, seen = [], {}
+        for fn in funcs:
+            if fn.name in seen:
+                seen[fn.name].append(fn)
+            else:
+                seen[fn.name] = [fn]
+                groups.append(seen[fn.name])
+        node.body = head + [fn for g in reversed(groups) for fn in g]
+        return node
+
+
+class IsinstanceMerge(ast.NodeTransformer):
+    """isinstance(x, A) or isinstance(x, B) -> isinstance(x, (A, B))"""
+
+    def visit_BoolOp(self, node):
+        self.generic_visit(node)
+        if not isinstance(node.op, ast.Or):
+            return node
+        out = []
+        for v in node.values:
+            if out and self._isi(v) and self._isi(out[-1]) and ast.dump(v.args[0]) == ast.dump(out[-1].args[0]):
+                prev = out[-1]
+                a = prev.args[1].elts if isinstance(prev.args[1], ast.Tuple) else [prev.args[1]]
+                b = v.args[1].elts if isinstance(v.args[1], ast.Tuple) else [v.args[1]]
+                prev.args[1] = ast.Tuple(elts=list(a) + list(b), ctx=ast.Load())
+            else:
+                out.append(v)
+        if len(out) == 1:
+            return out[0]
+        node.values = out
+        return node
+
+    @staticmethod
+    def _isi(v):
+        return isinstance(v, ast.Call) and isinstance(v.func, ast.Name) and v.func.id == "isinstance" and len(v.args) == 2 and not v.keywords
+
+
+TRANSFORMS = {"eqswap": EqSwap, "cmpflip": CmpFlip, "ifinvert": IfInvert, "notcmp": NotCmp, "augexpand": AugExpand, "annotate": Annotate, "fstring": FString, "methodorder": MethodOrder, "isimerge": IsinstanceMerge,
               "passpad": PassPad, "rename": Rename}
 
-SILENT_VARIANTS = ("eqswap", "cmpflip", "ifinvert", "notcmp", "augexpand", "passpad")
+SILENT_VARIANTS = ("eqswap", "cmpflip", "ifinvert", "notcmp", "augexpand", "passpad", "annotate", "fstring", "methodorder", "isimerge")
